@@ -805,28 +805,10 @@ Proof.
     destruct (segment_loop _ _ _ _ _ _) as [[[ss' segs'] rem']|]; [|exact I].
     split; [exact Es2|]. revert F2. apply fok_FO. fok_same_tac. }
   destruct pe as [rw ps| |].
-  - (* the expired probe is popped *)
-    apply Hcont; [destruct (seq_gt _ _); vsimpl_goal; exact E1|].
-    destruct (timer_expired (v_t_retransmit s1) (v_now s1)) eqn:X.
-    2:{ exfalso. exact (pop_expired_not_timed_out _ _ _ _ Ep _ _ eq_refl). }
-    intros fin Hf Hl. exfalso. unfold fin_of in Hf.
-    assert (Est : v_state s1 = FinWait1 fin).
-    { unfold LF in L. rewrite <- E1 in L.
-      destruct (seq_gt _ _); cbn [v_state set_ss set_last_sent_seq_nr set_rto_retransmissions set_t_retransmit VSockRec.set_segs] in Hf;
-        destruct (v_state s1); cbn [our_fin_if_unacked is_remote_fin_or_later is_local_fin_or_later] in *;
-        try discriminate; injection Hf as ->; reflexivity. }
-    assert (Hfn : fin = cutf (v_segs s1)).
-    { rewrite E1 in Est. destruct (N fin Est) as [N1|[N1 _]]; [rewrite E6; exact N1|].
-      unfold NE in N1. rewrite <- E3, <- E4 in N1. congruence. }
-    destruct (pop_expired_shape _ _ _ _ _ Ep) as (init & x & Hs & Hrw).
-    assert (Hr : 0 <= fin < M16) by (rewrite Hfn; unfold cutf; apply wadd16_range).
-    assert (Hrw2 : rw = wsub16 fin 2).
-    { rewrite Hrw, Hfn. unfold cutf, len_z. rewrite Hs, app_length. cbn [length].
-      unfold wsub16, wadd16, M16. lia. }
-    destruct (seq_gt (v_last_sent_seq_nr _) rw) eqn:Eg;
-      cbn [v_last_sent_seq_nr set_ss set_last_sent_seq_nr set_rto_retransmissions set_t_retransmit VSockRec.set_segs] in Hl, Eg.
-    + rewrite Hrw2 in Hl. apply (wsub16_ne fin 2); [unfold M16; lia|exact Hl].
-    + rewrite Hl, Hrw2, (seq_gt_back2 fin Hr) in Eg. discriminate.
+  - (* the expired probe is popped: not in a local-FIN state (repair of D6: the flag handed to
+       pop_expired_mtu_probe is false there) *)
+    exfalso. unfold LF in L. rewrite <- E1 in L. rewrite L in Ep. rewrite andb_false_r in Ep.
+    exact (pop_expired_not_timed_out _ _ _ _ Ep _ _ eq_refl).
   - split; [exact E1|]. revert Fs1. apply fok_FO. fok_same_tac.
   - apply Hcont; assumption.
 Qed.
